@@ -69,6 +69,16 @@ def units(ctx):
                 us.append(("mreach", PROPERTY, alg, spec, 2, 2, mu, 7, 3 if ctx.thorough else 2))
             for mu in reach.truths(3, 2, True)[: (10 if ctx.thorough else 5)]:
                 us.append(("mreach", PROPERTY, alg, spec, 2, 3, mu, 7, 2 if ctx.thorough else 1))
+    # model-guided, ellipsoidal variants and the bandit PaVeBa (run to termination in the model: horizon 150 rounds)
+    for alg in ("PaVeBaGP-DE", "PartialGP-ell"):
+        for spec in [("comp", 2), ("theta", 60), ("theta", 135), ("theta3", 135)]:
+            for mu in reach.truths(2, 2, True)[: (12 if ctx.thorough else 6)]:
+                us.append(("mreach", PROPERTY, alg, spec, 2, 2, mu, 7, 2 if ctx.thorough else 1))
+    for spec in [("comp", 2), ("theta", 60), ("theta", 135), ("theta3", 135)]:
+        for mu in reach.truths(2, 2, True)[: (12 if ctx.thorough else 6)]:
+            us.append(("mreach", PROPERTY, "PaVeBa", spec, 2, 2, mu, 150, 2 if ctx.thorough else 1))
+        for mu in reach.truths(3, 2, True)[: (6 if ctx.thorough else 2)]:
+            us.append(("mreach", PROPERTY, "PaVeBa", spec, 2, 3, mu, 150, 1))
     # real models, GP-generated histories (scripted observation offsets), contraction chosen so that runs end in a few dozen rounds
     for alg in ("PaVeBaGP-IH", "PaVeBaGP-DE", "PartialGP-rect", "PartialGP-ell", "PaVeBa", "Auer"):
         specs = [None] if alg == "Auer" else [("comp", 2), ("theta", 60), ("theta", 120)]
